@@ -16,5 +16,7 @@ func checkC10(c *Check) {
 	}
 	runRulesGen(c, genCfg{Alphabet: "AlphaStructA", MaxLen: n1, Lim: defaultLim, Reasons: reasons, Label: "structure/header", Timeout: 20 * time.Minute, Workers: 8})
 	runRulesGen(c, genCfg{Alphabet: "AlphaStructA", MaxLen: n2, Lim: defaultLim, Reasons: reasons, Prefix: prefixDoc, Label: "structure/body", Timeout: 30 * time.Minute, Workers: 8})
+	// long random walks of accepted events, each followed to the first rejection
+	runRulesGen(c, genCfg{Alphabet: "AlphaStructB", MaxLen: 40, Lim: defaultLim, Reasons: reasons, Prefix: prefixDoc, Filter: "FilterValid", Label: "structure/walk", Timeout: 10 * time.Minute, Workers: 8, Simulate: "num=" + map[string]string{"quick": "300", "thorough": "5000"}[c.Tier], Depth: 41})
 	runRulesGen(c, genCfg{Alphabet: "AlphaStructB", MaxLen: n2 - 1, Lim: defaultLim, Reasons: reasons, Prefix: prefixDoc, Label: "structure/body+pad", Timeout: 30 * time.Minute, Workers: 8})
 }
